@@ -193,5 +193,153 @@ func cases(tier string, seed int64) []eng.Case {
 		d := brDesc{BR: br, LWE: lwe, LevelP: -1, W: 7, Funcs: []string{"sign"}, A: -1, B: 1, Kind: "stock", SlotMode: "first", NCts: 1}
 		out = append(out, eng.Case{ID: fmt.Sprintf("br/stock/%d", i), Sig: "C20|blindrot.Evaluator.Evaluate", Desc: d, Run: func(c *eng.Ctx) { runBR(c, d) }})
 	}
+	return append(out, extCases(tier, seed)...)
+}
+
+// extCases: families added by the coverage audit (ext.go, brx.go). They draw from their own
+// stream so that the cases above are unchanged.
+func extCases(tier string, seed int64) []eng.Case {
+	r := eng.NewRand("c20-cases-ext", seed)
+	thorough := tier == "thorough"
+	var out []eng.Case
+	qsz := []int{30, 36, 45, 50, 55, 58, 60}
+	psz := []int{36, 45, 55, 60, 61}
+
+	// ------------------------------------------------------------ epx
+	nEPX, epxTrials := 20, 3
+	if thorough {
+		nEPX, epxTrials = 180, 5
+	}
+	for i := 0; i < nEPX; i++ {
+		logN := eng.Pick(r, 4, 5, 6, 7)
+		var qb, pb []int
+		switch i % 7 {
+		case 0: // 32-bit fast path
+			qb = []int{eng.Pick(r, 29, 28, 27, 25)}
+		case 1: // fast path at level 0 of a longer chain, with or without P
+			qb = []int{eng.Pick(r, 29, 28, 26), eng.Pick(r, qsz...)}
+			if r.Bool() {
+				pb = []int{eng.Pick(r, psz...)}
+			}
+		case 2:
+			qb = []int{eng.Pick(r, qsz...)}
+			if r.Bool() {
+				qb = append(qb, eng.Pick(r, qsz...), eng.Pick(r, qsz...))
+			}
+		case 3:
+			for j := 0; j < 1+r.N(3); j++ {
+				qb = append(qb, eng.Pick(r, qsz...))
+			}
+			pb = []int{eng.Pick(r, psz...)}
+		case 4:
+			for j := 0; j < 1+r.N(4); j++ {
+				qb = append(qb, eng.Pick(r, qsz...))
+			}
+			pb = []int{eng.Pick(r, 55, 60, 61), eng.Pick(r, psz...)}
+		case 5:
+			for j := 0; j < 2+r.N(3); j++ {
+				qb = append(qb, eng.Pick(r, qsz...))
+			}
+			pb = []int{61, eng.Pick(r, psz...), eng.Pick(r, psz...)}
+		default: // many RNS digits
+			logN = eng.Pick(r, 4, 5)
+			for j := 0; j < 7+r.N(4); j++ {
+				qb = append(qb, eng.Pick(r, 36, 45, 60))
+			}
+			pb = []int{61, 61}
+		}
+		pc, ok := mkParams(r, logN, qb, pb, eng.Pick(r, xsKinds...), true)
+		if !ok {
+			continue
+		}
+		d := epDesc{P: pc, Trials: epxTrials}
+		out = append(out, eng.Case{ID: fmt.Sprintf("epx/%d/%s", i, pc.short()), Sig: "C20|rgsw.epx", Desc: d, Run: func(c *eng.Ctx) { runEPX(c, d) }})
+	}
+
+	// ------------------------------------------------------------ algx
+	nAlgX, algxTrials := 12, 2
+	if thorough {
+		nAlgX, algxTrials = 110, 4
+	}
+	for i := 0; i < nAlgX; i++ {
+		logN := eng.Pick(r, 4, 5, 6)
+		var qb, pb []int
+		for j := 0; j < 1+r.N(3); j++ {
+			qb = append(qb, eng.Pick(r, 28, 36, 45, 55, 60))
+		}
+		for j := 0; j < i%4; j++ {
+			pb = append(pb, eng.Pick(r, psz...))
+		}
+		pc, ok := mkParams(r, logN, qb, pb, eng.Pick(r, xsKinds...), true)
+		if !ok {
+			continue
+		}
+		d := algDesc{P: pc, Trials: algxTrials}
+		out = append(out, eng.Case{ID: fmt.Sprintf("algx/%d/%s", i, pc.short()), Sig: "C20|rgsw.algebra", Desc: d, Run: func(c *eng.Ctx) { runAlgX(c, d) }})
+	}
+
+	// ------------------------------------------------------------ tpx
+	nTPX, tpxTrials := 8, 6
+	if thorough {
+		nTPX, tpxTrials = 60, 10
+	}
+	for i := 0; i < nTPX; i++ {
+		logN := eng.Pick(r, 4, 6, 8, 9, 10, 11)
+		var qb []int
+		for j := 0; j < 1+i%3; j++ {
+			qb = append(qb, eng.Pick(r, 27, 36, 45, 55, 60))
+		}
+		pc, ok := mkParams(r, logN, qb, nil, "p", true)
+		if !ok {
+			continue
+		}
+		d := tpxDesc{P: pc, Trials: tpxTrials}
+		out = append(out, eng.Case{ID: fmt.Sprintf("tpx/%d/%s", i, pc.short()), Sig: "C20|blindrot.InitTestPolynomial", Desc: d, Run: func(c *eng.Ctx) { runTPX(c, d) }})
+	}
+
+	// ------------------------------------------------------------ brx
+	type brxShape struct {
+		qb, pb []int
+		shape  string
+		lp, w  int
+	}
+	shapes := []brxShape{
+		{[]int{28}, nil, "w", 0, 4},                  // 32-bit fast path, BaseTwoDecomposition only (as the in-tree callers do)
+		{[]int{55}, nil, "w", 0, 7},                  // general path
+		{[]int{50}, []int{55}, "w", 0, 8},            // LevelP defaults to the single P
+		{[]int{50}, []int{55}, "none", 0, 0},         // no EvaluationKeyParameters at all
+		{[]int{45, 45}, []int{60, 60}, "none", 0, 0}, // defaults to both P
+		{[]int{45, 45}, []int{60, 60}, "lp", 0, 0},   // LevelP only
+		{[]int{45, 45}, nil, "none", 0, 0},           // no P, one prime per digit
+		{[]int{36, 36, 36}, []int{61, 61, 61}, "none", 0, 0},
+		{[]int{58}, nil, "both", -1, 16},
+		{[]int{45, 45}, []int{60}, "lp", -1, 0},    // keys at LevelP=-1 under parameters that have P
+		{[]int{45, 50}, []int{60}, "both", -1, 9},  // the same with power-of-two digits
+		{[]int{45, 45}, []int{60, 60}, "lq", 0, 0}, // keys at level 0 of a longer chain
+		{[]int{28, 45}, nil, "lqw", 0, 5},          // keys at level 0: the 32-bit fast path inside a two-prime chain
+	}
+	pairs := [][2]int{{4, 6}, {4, 7}, {5, 6}, {5, 7}, {4, 5}, {5, 8}, {5, 5}}
+	nBRX := 26
+	if thorough {
+		nBRX = 150
+		pairs = append(pairs, [2]int{6, 8}, [2]int{6, 9}, [2]int{7, 8}, [2]int{4, 9})
+	}
+	funcs := []string{"sign", "id", "table", "sq", "step"}
+	intervals := [][2]float64{{-1, 1}, {-4, 4}, {-2, 6}, {0, 1}}
+	for i := 0; i < nBRX; i++ {
+		pr := pairs[(i/len(shapes)+i)%len(pairs)]
+		sh := shapes[i%len(shapes)]
+		br, ok := mkParams(r, pr[1], sh.qb, sh.pb, eng.Pick(r, "p", "hN", "h8", "gauss"), i%4 != 3)
+		if !ok {
+			continue
+		}
+		lwe, ok := mkParams(r, pr[0], []int{eng.Pick(r, pr[1]+4, pr[1]+6, 20, 26)}, nil, []string{"h1", "h8", "hHalf", "hN", "p", "gauss"}[i%6], i%3 != 2)
+		if !ok {
+			continue
+		}
+		iv := intervals[i%len(intervals)]
+		d := brxDesc{BR: br, LWE: lwe, EvkShape: sh.shape, EvkLevelQ: 0, LevelP: sh.lp, W: sh.w, Func: funcs[i%len(funcs)], A: iv[0], B: iv[1]}
+		out = append(out, eng.Case{ID: fmt.Sprintf("brx/%d/%s/%s/%s/lp%d/w%d", i, br.short(), lwe.short(), sh.shape, sh.lp, sh.w), Sig: "C20|blindrot.brx", Desc: d, Run: func(c *eng.Ctx) { runBRX(c, d) }})
+	}
 	return out
 }
